@@ -50,11 +50,17 @@ func (f *Tagbody) Call(s *slip.Scope, args slip.List, depth int) slip.Object {
 	ns.TagBody = true
 	d2 := depth + 1
 	for i := 0; i < len(args); i++ {
-		if gt, _ := slip.EvalArg(ns, args, i, d2).(*GoTo); gt != nil {
-			for i++; i < len(args); i++ {
-				if args[i] == gt.Tag {
-					break
-				}
+		switch args[i].(type) {
+		case slip.List, slip.Funky:
+		default:
+			continue // a tag
+		}
+		switch tr := slip.EvalArg(ns, args, i, d2).(type) {
+		case *slip.ReturnResult:
+			return tr
+		case *GoTo:
+			if i = tr.Find(s, args, 0, depth); i < 0 {
+				return tr
 			}
 		}
 	}
